@@ -80,7 +80,9 @@ impl Scheduler {
     }
 
     fn schedule(&mut self, pkt: Packet, delay: Duration) {
-        let deliver_at = self.now + delay;
+        // `Deliver(Duration::MAX)` is a natural way to say "hold for
+        // ever": saturate instead of panicking on overflow.
+        let deliver_at = self.now.saturating_add(delay);
         let seq = self.next_seq;
         self.next_seq += 1;
         let entry = Scheduled {
